@@ -1,5 +1,6 @@
 import JediModel.Gen.C10
 import JediModel.Lemmas.Imports
+import JediModel.Model.StarChain
 /-! # C10 — imports resolve to what Python's import system would load
 
 Specification side: `resolveName` (= `importlib._bootstrap._resolve_name`), `pyFind`/`pyImport`
@@ -279,6 +280,145 @@ theorem dotted_string_prefix_witness :
     transformPathToDotted true pathSuffixes ["/foo/ba".toList, "/foo".toList]
         ["/", "foo", "bar", "baz.py"] = (some ["bar".toList, "baz".toList], false) := by
   refine ⟨by decide, by decide, by decide, by decide⟩
+
+/-! ## chains of star imports (`ModuleMixin.star_imports`) -/
+section StarChains
+open JediModel.StarChain
+
+/-- The decisive shape read from the source: the recursion into a star-imported module is
+`module.star_imports()`, i.e. it uses that module's OWN context. -/
+theorem star_imports_recurse_in_own_context : JediModel.Gen.C10.starImportsOwnContext = true := by decide
+
+/-- One link: the name jedi's `Importer` asks for is the name `_resolve_name` computes from the
+package of the context it is given - and nothing when Python raises. -/
+theorem star_target_eq_python (pkg : List String) (s : StarImp) : jediTarget pkg s = pyTarget pkg s := by
+  unfold jediTarget pyTarget
+  by_cases h0 : s.level = 0
+  · simp [h0, Importer.init]
+  · simp only [h0, false_or, if_false]
+    unfold resolveName
+    by_cases he : pkg.isEmpty = true
+    · have : pkg.length = 0 := by simpa using he
+      have hn : ¬ s.level ≤ pkg.length := by omega
+      simp [he, hn]
+    · by_cases hlt : pkg.length < s.level
+      · have hn : ¬ s.level ≤ pkg.length := by omega
+        simp [he, hlt, hn]
+      · have hle : s.level ≤ pkg.length := by omega
+        simp only [he, hlt, hle, if_true, if_false, Importer.init, h0]
+        by_cases h1 : s.level > 1
+        · simp [h1]
+        · have : s.level = 1 := by omega
+          simp [this]
+
+/-- Soundness: every module `star_imports()` lists is one whose names Python copies into `m`. -/
+theorem star_chain_sound (w : StarChain.World) (fuel : Nat) (c : List String) (m t : Name)
+    (h : t ∈ starImports w true fuel c m) : PyStar w m t := by
+  induction fuel generalizing c m t with
+  | zero => simp [starImports] at h
+  | succ k ih =>
+    unfold starImports at h
+    split at h
+    · simp at h
+    next md hm =>
+      simp only [if_true, List.mem_flatMap] at h
+      obtain ⟨s, hs, ht⟩ := h
+      rw [star_target_eq_python] at ht
+      split at ht
+      · simp at ht
+      next t' htar =>
+        by_cases hw : (w t').isSome = true
+        · simp only [hw, if_true, List.mem_append, List.mem_singleton] at ht
+          have hl : Link w m t' := ⟨md, s, hm, hs, htar, hw⟩
+          rcases ht with ht | ht
+          · exact PyStar.step hl (ih _ _ _ ht)
+          · subst ht; exact PyStar.direct hl
+        · simp [hw] at ht
+
+/-- Completeness: every module whose names Python copies into `m` through a chain of star imports
+is listed, whatever context is handed in. -/
+theorem star_chain_complete (w : StarChain.World) (m t : Name) (h : PyStar w m t) :
+    ∃ fuel, ∀ c, t ∈ starImports w true fuel c m := by
+  induction h with
+  | direct hl =>
+    obtain ⟨md, s, hm, hs, htar, hw⟩ := hl
+    refine ⟨1, fun c => ?_⟩
+    unfold starImports
+    simp only [hm, if_true, List.mem_flatMap]
+    refine ⟨s, hs, ?_⟩
+    rw [star_target_eq_python, htar]
+    simp [hw]
+  | step hl _ ih =>
+    obtain ⟨md, s, hm, hs, htar, hw⟩ := hl
+    obtain ⟨k, hk⟩ := ih
+    refine ⟨k + 1, fun c => ?_⟩
+    unfold starImports
+    simp only [hm, if_true, List.mem_flatMap]
+    refine ⟨s, hs, ?_⟩
+    rw [star_target_eq_python, htar]
+    simp only [hw, if_true, List.mem_append]
+    exact Or.inl (hk _)
+
+/-- **The names visible through a chain of star imports are Python's**: with the recursion as found
+in the source, a name is among those jedi collects for `m` (its own and those of `star_imports()`)
+exactly when executing the modules binds it in `m` - every link resolved relative to the package of
+the module that contains it. -/
+theorem star_chain_names_eq_python (w : StarChain.World) (m : Name) (n : String) :
+    (∃ fuel, n ∈ jediVisible w JediModel.Gen.C10.starImportsOwnContext fuel m) ↔ PyVisible w m n := by
+  rw [star_imports_recurse_in_own_context]
+  unfold jediVisible PyVisible starImportsOf
+  constructor
+  · rintro ⟨fuel, h⟩
+    cases hm : w m with
+    | none => simp [hm] at h
+    | some md =>
+      simp only [hm, List.mem_append, List.mem_flatMap] at h
+      rcases h with h | ⟨t, ht, hn⟩
+      · exact Or.inl ⟨md, rfl, h⟩
+      · right
+        cases hd : w t with
+        | none => simp [hd] at hn
+        | some d =>
+          simp only [hd] at hn
+          exact ⟨t, d, star_chain_sound w fuel _ m t ht, hd, hn⟩
+  · rintro (⟨md, hm, h⟩ | ⟨t, d, hs, hd, hn⟩)
+    · exact ⟨0, by simp [hm, h]⟩
+    · obtain ⟨fuel, hf⟩ := star_chain_complete w m t hs
+      cases hs' : w m with
+      | none =>
+        exfalso
+        cases hs with
+        | direct hl => obtain ⟨md, _, hm, _⟩ := hl; simp [hs'] at hm
+        | step hl _ => obtain ⟨md, _, hm, _⟩ := hl; simp [hs'] at hm
+      | some md =>
+        refine ⟨fuel, ?_⟩
+        simp only [List.mem_append, List.mem_flatMap]
+        exact Or.inr ⟨t, hf _, by simp [hd, hn]⟩
+
+/-- `app/run.py: from pkg import *`, `pkg/__init__.py: from .inner import *`, `pkg/inner.py` binds
+`leaf`, and the starting package has a sibling `app/inner.py` binding `other`. -/
+def exWorld : StarChain.World := worldOf [
+  (["app", "run"], { pkg := ["app"], defs := [], stars := [⟨0, ["pkg"]⟩] }),
+  (["app"], { pkg := ["app"], defs := [], stars := [] }),
+  (["app", "inner"], { pkg := ["app"], defs := ["other"], stars := [] }),
+  (["pkg"], { pkg := ["pkg"], defs := [], stars := [⟨1, ["inner"]⟩] }),
+  (["pkg", "inner"], { pkg := ["pkg"], defs := ["leaf"], stars := [] })]
+
+/-- Counter-witness (kernel-checked) for a recursion that hands the ROOT module's context down:
+the inner link `from .inner import *` of `pkg` is then resolved against `app`, the chain reaches
+`app.inner` instead of `pkg.inner`, `leaf` is lost and `other` appears; the code as found
+(`ownCtx = true`) reaches `pkg.inner`. -/
+theorem star_chain_root_context_witness :
+    starImportsOf exWorld false 3 ["app", "run"] = [["app", "inner"], ["pkg"]] ∧
+    jediVisible exWorld false 3 ["app", "run"] = ["other"] ∧
+    starImportsOf exWorld true 3 ["app", "run"] = [["pkg", "inner"], ["pkg"]] ∧
+    jediVisible exWorld true 3 ["app", "run"] = ["leaf"] := by
+  refine ⟨by decide, by decide, by decide, by decide⟩
+
+example : PyStar exWorld ["app", "run"] ["pkg", "inner"] :=
+  PyStar.step ⟨_, ⟨0, ["pkg"]⟩, rfl, by simp, rfl, rfl⟩ (PyStar.direct ⟨_, ⟨1, ["inner"]⟩, rfl, by simp, rfl, rfl⟩)
+
+end StarChains
 
 /-! ## non-vacuity -/
 
